@@ -367,6 +367,14 @@ def poisoned(res, labels):
     return any(l in res.get("unstable", ()) for l in labels)
 
 
+def table_honest(u):
+    """does the table universe satisfy the two emptiness contracts of the strategies (possibly_empty=False strategies
+    have no empty child; a symmetry's image is empty iff the class is)?  Decided by C04's predicates on the table."""
+    from harness.props import c04
+
+    return bool(c04.pe_contract(u) and c04.sym_contract(u))
+
+
 def _why_not_found(u, res, classes, empties, rk):
     """_find_rule raised for the key rk: None = excused (the strategies broke their contract), else why"""
     near = False
@@ -383,9 +391,12 @@ def _why_not_found(u, res, classes, empties, rk):
                 return KNOWN_FOREIGN + ": key %r is only re-created from class %d (label %d), outside the key" % (
                     rk, classes[l], l)
             near = near or (k is not None and k[:3] == rk[:3])
-    if near and poisoned(res, [rk[0]] + list(rk[1])):
+    if near and poisoned(res, [rk[0]] + list(rk[1])) and not table_honest(u):
         # the bucket was computed from an emptiness answer that was later overwritten (or was wrong):
-        # hypothesis `grows` of C11_find_rule_total fails, through the table's fault (no contract)
+        # hypothesis `grows` of C11_find_rule_total fails, through the table's fault (no contract).
+        # The cache-write evidence alone is NOT an excuse: the table must really break the contract that makes the
+        # searcher write such a value (pe_contract / sym_contract of Searcher/Contracts.v, decided on the table); on an
+        # honest table a contradictory cache write is the searcher's own doing and the not-found stands
         return None
     return "_find_rule raised for the key %r which no class of the database re-creates" % (rk,)
 
@@ -548,12 +559,18 @@ def strict_agreement(cases, impl_res):
     sel = [(c, r[0]) for c, r in zip(cases, impl_res)
            if c.get("kind") == "search" and isinstance(r[0], dict) and r[0].get("strict")]
     sel = sel[:400]
+    # the AGREEMENT count stays informational (see above); what can fail is the COVERAGE: a full run must have
+    # compared at least 100 found searches, else the figure reported in the evidence is about nothing
+    full = len(cases) >= 5000
     if not sel or not os.path.exists(binary):
-        return ("strict agreement of the _find_rule model (rule identity, class database)", True, "no sample")
+        return ("strict agreement of the _find_rule model (rule identity, class database): sample of >= 100 found searches",
+                not full, "no sample (%d retained cases, model binary %s)"
+                % (len(cases), "present" if os.path.exists(binary) else "MISSING"))
     mo = core.run_model(binary, [encode_with(c, r) for c, r in sel])
     same = sum(1 for (c, r), m in zip(sel, mo) if core.canon(m) == core.canon(r["strict"]))
-    return ("strict agreement of the _find_rule model (rule identity, class database): %d of %d search cases"
-            % (same, len(sel)), True, "%d/%d" % (same, len(sel)))
+    return ("strict agreement of the _find_rule model (rule identity, class database): %d of %d search cases "
+            "(agreement informational; required: a sample of >= 100 found searches)"
+            % (same, len(sel)), (not full) or len(sel) >= 100, "%d/%d" % (same, len(sel)))
 
 
 # ----------------------------------------------------------------- real (word) universes, tabulated
